@@ -95,7 +95,9 @@ def bounded_roundtrip(tier, seed):
                # nesting to the specification's limits (32 array levels, 32 struct levels) and a 255-byte signature
                ('a' * 32 + 'y', [_nest_list(32, [7])]), ('a' * 31 + 'x', [_nest_list(31, [])]), ('(' * 32 + 'yx' + ')' * 32, [_nest_struct(32, [1, -2])]),
                ('a' * 16 + '(' * 16 + 'n' + ')' * 16, [_nest_list(16, [_nest_struct(16, [-3])])]), ('y' + 'x' * 254, [1] + [2**40] * 254),
-               ('d', [float('nan')]), ('ad', [[float('-inf'), 5e-324]]), ('s', ['\U0001F600' * 70])]
+               ('d', [float('nan')]), ('ad', [[float('-inf'), 5e-324]]), ('s', ['\U0001F600' * 70]),
+               # signatures as VALUES at the length limit (255), and a variant whose content type is that long
+               ('g', ['i' * 255]), ('g', ['a' * 31 + 'y' + 'x' * 223]), ('ag', [['', 'i' * 255, 'i' * 254]]), ('v', [W.Variant('(' + 'i' * 253 + ')', list(range(253)))])]
     for sig, vals in special:
         for off in range(8):
             for le in (True, False):
@@ -202,6 +204,15 @@ def with_alarm(seconds, fn):
 
 
 # ------------------------------------------------------------------ C01: pure round trip (oracle = the value itself)
+class _OrderedList(list):
+    """a record that is itself a list (a namedtuple-like row) and declares its field order: the declared order counts"""
+    def __init__(self, vals):
+        list.__init__(self, reversed(vals))           # positional order differs from the declared one
+        self.dbusOrder = ['f%d' % i for i in range(len(vals))]
+        for n, v in zip(self.dbusOrder, vals):
+            setattr(self, n, v)
+
+
 class _Ordered:
     """an object declaring its field order (accepted wherever a struct is expected)"""
     def __init__(self, vals):
@@ -227,7 +238,7 @@ def input_forms(ct, v, rnd):
     if c == '(':
         parts = [input_forms(t, x, rnd) for t, x in zip(W.split(ct[1:-1]), v)]
         r = rnd.random()
-        return tuple(parts) if r < 0.4 else _Ordered(parts) if r < 0.6 else parts
+        return tuple(parts) if r < 0.4 else _Ordered(parts) if r < 0.55 else _OrderedList(parts) if r < 0.65 else parts
     wrap = {'y': 'Byte', 'n': 'Int16', 'q': 'UInt16', 'i': 'Int32', 'u': 'UInt32', 'x': 'Int64', 't': 'UInt64', 'o': 'ObjectPath', 'g': 'Signature'}
     if c in wrap and rnd.random() < 0.3 and hasattr(marshal, wrap[c]):
         return getattr(marshal, wrap[c])(v)
@@ -272,7 +283,8 @@ def bounded_plain_roundtrip(tier, seed):
                # nesting to the specification's limits and a 255-byte signature
                ('a' * 32 + 'y', [_nest_list(32, [7])]), ('a' * 32 + 'x', [_nest_list(32, [])]), ('(' * 32 + 'yx' + ')' * 32, [_nest_struct(32, [1, -2])]),
                ('a' * 16 + '(' * 16 + 'n' + ')' * 16, [_nest_list(16, [_nest_struct(16, [-3])])]),
-               ('y' + 'x' * 254, [1] + [2**40] * 254), ('a{s' + 'a' * 30 + 'i}', [{'k': _nest_list(30, [5])}])]
+               ('y' + 'x' * 254, [1] + [2**40] * 254), ('a{s' + 'a' * 30 + 'i}', [{'k': _nest_list(30, [5])}]),
+               ('g', ['i' * 255]), ('ag', [['', 'i' * 255, 'i' * 254]]), ('v', [W.Variant('(' + 'i' * 253 + ')', list(range(253)))])]
     for sig, vals in special:
         for off in range(8):
             for le in (True, False):
@@ -284,7 +296,10 @@ def bounded_plain_roundtrip(tier, seed):
     from txdbus import marshal as _m
     inferred = [([1, _m.Int64(2**40)], [1, 2**40]), ({'small': 1, 'big': _m.UInt64(2**63)}, {'small': 1, 'big': 2**63}), ({'a': -1, 'b': True}, {'a': -1, 'b': True}),
                 ([5, True], [5, True]), (['a', _m.ObjectPath('/b')], ['a', '/b']), ((1, 'a'), [1, 'a']), ((1, 2), [1, 2]), ({_m.ObjectPath('/k'): 1}, {'/k': 1}),
-                ({_m.Signature('i'): 's'}, {'i': 's'}), ([], []), ({}, {}), (bytearray(b'ab'), [97, 98])]
+                ({_m.Signature('i'): 's'}, {'i': 's'}), ([], []), ({}, {}), (bytearray(b'ab'), [97, 98]),
+                # dictionaries with keys that are not strings, values of one type and of several
+                ({1: 'one', 2: 'two'}, {1: 'one', 2: 'two'}), ({1: 'one', 2: 2}, {1: 'one', 2: 2}), ({True: 1.5, False: 'x'}, {True: 1.5, False: 'x'}),
+                ({_m.ObjectPath('/a'): 1, _m.ObjectPath('/b'): 's'}, {'/a': 1, '/b': 's'}), ({_m.Byte(1): [1], _m.Byte(2): 'b'}, {1: [1], 2: 'b'})]
     for pyv, want in inferred * 2:
         for off in (0, 1, 4):
             for le in (True, False):
